@@ -249,6 +249,18 @@ func DrawHello(t *rapid.T, o HelloOpts) *HelloPlan {
 	if drawBool(t, "pad", 25) {
 		exts = append(exts, ExtPlan{Kind: "padding", Data: make([]byte, rapid.IntRange(1, 200).Draw(t, "padlen"))})
 	}
+	if tls13 && drawBool(t, "fakepsk", 12) {
+		hasModes := false
+		for _, e := range exts {
+			if e.Kind == "pskmodes" {
+				hasModes = true
+			}
+		}
+		if !hasModes {
+			exts = append(exts, ExtPlan{Kind: "pskmodes", U8: []uint8{1}})
+		}
+		exts = append(exts, ExtPlan{Kind: "fakepsk", Data: make([]byte, rapid.IntRange(16, 120).Draw(t, "psklabel"))})
+	}
 	h.Exts = exts
 	return h
 }
